@@ -50,3 +50,28 @@ claim("C09",
  "No blocking operation while a broker lock is held (noblock-locked obligations on every channel operation and blocking call), locks balanced on every exit, every broker wait has a timer / quit / connection-bound justification, every inbound stream is parked, handed over or closed (ownership counter), Close closes quit/done channels once. Fixed defects D5 and D6.",
  "Wall-clock values and select fairness are not decided; connection-bound waits are accepted in mode peer-dead (pending I/O fails when the peer dies).",
  "DESIGN.md section 7 C09")
+claim("C11",
+ "gRPC path: copyChan sends exactly the bytes of each Read (length n, n>0, a buffer allocated after the previous send, never the whole array) on its own channel; newGRPCStdioServer/GRPCServer.Init/Serve wire the stdout pipe reader to stdoutCh and the stderr pipe reader to stderrCh; StreamStdio tags data from stdoutCh STDOUT and stderrCh STDERR and sends that chunk; grpcStdioClient.Run writes STDOUT chunks to the first and STDERR chunks to the second writer, which newGRPCClient binds to SyncStdout/SyncStderr. net/rpc path: both ends open/accept the stdio streams as yamux stream ordinals 1 and 2 after control (loop invariants), the server copies s.Stdout into ordinal 1 and s.Stderr into ordinal 2, the client copies ordinal 1 into SyncStdout and 2 into SyncStderr. Serve installs as os.Stdout/os.Stderr the write ends of the pipes whose read ends the server was given.",
+ "Assumed: bufio.Reader.Read, io.Copy, os.Pipe, io.TeeReader, yamux in-order pairing of Open/Accept, gRPC stream ordering, Go channels are FIFO. Exactly-once, in-order delivery is the composition of these per-hop contracts with the assumed FIFO transports; it is not proved as a whole-history theorem. Data written before the host attaches relies on pipe/channel back-pressure (assumed).",
+ "DESIGN.md section 7 C11")
+claim("C12",
+ "Configuration-level proof that every connection path uses the one-time certificates: Serve builds (when PLUGIN_CLIENT_CERT is set and no TLSProvider) a tls.Config with ClientAuth=RequireAndVerifyClientCert, ClientCAs = a pool holding exactly the PEM from the environment, MinVersion>=TLS1.2, and gives that same config to the net/rpc listener wrapper or to GRPCServer.TLS; GRPCServer.Init passes exactly grpc.Creds(NewTLS(s.TLS)) and the same config to the plugin-side broker; host: Start exports the generated certificate (not the key) and requires client verification, loadServerCert pins a fresh pool containing exactly the decoded handshake certificate as RootCAs and ClientCAs and fails without a TLS config; newRPCClient/newGRPCClient/dialGRPCConn/GRPCBroker dial and AcceptAndServe use that config and never fall back to plaintext when it is set.",
+ "crypto/tls, x509 and gRPC credential enforcement are assumed (that a config with RequireAndVerifyClientCert and a one-certificate pool refuses every other peer is the library's contract). When AutoMTLS is on and the plugin returns no certificate field the host keeps RootCAs=nil (system roots, ServerName localhost): recorded as an assumption, not decided.",
+ "DESIGN.md section 7 C12")
+claim("C16",
+ "Serve: on every path with a missing/empty/wrong cookie the only effects are a message on stderr and os.Exit(1) (no listener, no stdout write, no file); protocolVersion and everything after it are dominated by the cookie check; the handshake line is the single stdout write, printed with format \"%d|%d|%s|%s|%s|%s\" and six arguments (core version, negotiated version, listener network, listener address, protocol, certificate), a seventh \"|%v\" exactly when PLUGIN_MULTIPLEX_GRPC is non-empty, after the listener exists and Init succeeded, before os.Stdout is replaced by the pipe; an SSA scan shows no other function of the module can write to the process's stdout.",
+ "Assumed: fmt, os.Getenv, net.Listen (a returned listener accepts connections), hclog writes only to its configured Output (stderr). User plugin code is outside the frame.",
+ "DESIGN.md section 7 C16")
+claim("C18",
+ "Listener accounting with a ghost counter: every listener created by serverListener_unix/_tcp is wrapped so that Close removes the socket file; every error path after creation closes it (fixed D11a, D11b); Serve closes its listener on every return, the gRPC server multiplexer closes the listener it wraps (fixed D10); GRPCBroker.Accept/AcceptAndServe return or close every listener they create; GRPCServer.Stop/GracefulStop close the broker; Kill waits for the client's goroutines and removes the runner's socket directory.",
+ "Goroutine termination a few seconds later is a liveness/whole-history statement: only its ingredients are decided (every management goroutine has a bounded wait and signals its WaitGroup: C04/C09/C10). File removal by os.Remove/os.RemoveAll is assumed.",
+ "DESIGN.md section 7 C18")
+claim("C20",
+ "Lock discipline as proof obligations: every read/write of a field declared guarded_by happens with its mutex held (Client, MuxBroker, GRPCBroker, GRPCServer.broker after fixed D13, grpcmux muxers, managedClients), immutable fields are written only in constructors (SSA scan of the module), counters are touched only through sync/atomic, every close of a channel is under a sync.Once or a nil-guard under lock (close-once obligations), no send on a closed channel, locks balanced on all paths, and no panic obligations on the concurrent entry points. NextId is one atomic increment.",
+ "The Go memory model and sync primitives are assumed; data races inside dependencies (yamux, gRPC, net/rpc) and in user plugin code are out of scope; fields not listed in a guarded_by/immutable clause are not checked (listed per type in the contract files).",
+ "DESIGN.md section 7 C20")
+claim("C03",
+ "Ingredients of crash-to-error: the wait goroutine sets exited and cancels doneCtx on every path; Start returns an error whenever its select ends by exit/timeout or the line channel closes; every blocking operation on the host paths (Start, Client, Dispense, Ping, broker Accept/Dial/knock, stdio client) has a bounding alternative (timer, doneCtx) or is I/O on the plugin connection (accepted in mode peer-dead); no panic obligations on all these functions for arbitrary plugin output; doneCtx is what newGRPCClient hands to GRPCPlugin.GRPCClient and the stdio stream.",
+ "Mode peer-dead assumes pending I/O on a connection to a dead process fails (kernel, yamux keepalive, gRPC). Calls made through user-generated gRPC stubs are not under contract. Known finding D3 (C04) is the one unbounded call found: Kill -> ClientProtocol.Close.",
+ "DESIGN.md section 7 C03")
+NOT_YET["C17"] = "environment-list contracts (effective lookup over cmd.Env) are being built; until they discharge the property is not claimed"
